@@ -204,6 +204,13 @@ def scanMin (peak : Int) : List Int → Int
   | [x] => min x peak
   | x :: rest => (rest.takeWhile (· < peak)).foldl min x
 
+/-- `getMinRight` of the Rychlik counter continues through later points *equal* to the peak
+(equal-height peaks: the earlier one closes against the deeper valley) -/
+def scanMinLe (peak : Int) : List Int → Int
+  | [] => peak
+  | [x] => min x peak
+  | x :: rest => (rest.takeWhile (· ≤ peak)).foldl min x
+
 /-- visit every interior point `cur` with `left` (reversed, nearest first) and `right` -/
 def peaksGo (f : List Int → Int → List Int → Option Cyc) : List Int → List Int → List Cyc
   | left, cur :: next :: rest =>
@@ -218,7 +225,7 @@ def peaksGo (f : List Int → Int → List Int → Option Cyc) : List Int → Li
   | _, _ => []
 
 def rychlik (h : List Int) : List Cyc :=
-  peaksGo (fun l m r => some ⟨max (scanMin m l) (scanMin m r), m, false⟩) [] (pv true h)
+  peaksGo (fun l m r => some ⟨max (scanMin m l) (scanMinLe m r), m, false⟩) [] (pv true h)
 
 def johannesson (h : List Int) : List Cyc :=
   peaksGo (fun l m _ => some ⟨scanMin m l, m, false⟩) [] (pv true h)
